@@ -100,9 +100,9 @@ def forward_filtering_backward_sampling(
 ):
     init = int(config.linear_grid_dim / 2)
     tt = config.transition_tensor()
-    prior = jnp.log(jax.nn.softmax(tt[init, :]))
-    transition_n = jnp.log(jax.nn.softmax(tt))
-    obs_n = jnp.log(jax.nn.softmax(config.observation_tensor()))
+    prior = jax.nn.log_softmax(tt[init, :])
+    transition_n = jax.nn.log_softmax(tt)
+    obs_n = jax.nn.log_softmax(config.observation_tensor())
 
     # Computing the alphas and forward filter distributions:
     #
@@ -224,14 +224,15 @@ def latent_sequence_posterior(
 
     def _inner(carry, x):
         latent, obs = x
-        v = jnp.log(carry[latent])
-        v += jnp.log(jax.nn.softmax(hmm.observation_distribution.logits)[latent, obs])
-        carry = jax.nn.softmax(hmm.transition_distribution.logits[latent, :])
+        # `carry` holds log-probabilities (log_softmax: no underflow to log(0) for far-off logits)
+        v = carry[latent]
+        v += jax.nn.log_softmax(hmm.observation_distribution.logits)[latent, obs]
+        carry = jax.nn.log_softmax(hmm.transition_distribution.logits[latent, :])
         return carry, v
 
     _, probs = jax.lax.scan(
         _inner,
-        jax.nn.softmax(hmm.initial_distribution.logits),
+        jax.nn.log_softmax(hmm.initial_distribution.logits),
         (latent_point, observation_sequence),
     )
     prod = jnp.sum(probs)
